@@ -114,6 +114,16 @@ func NbrHello(sys SysID, ifNet uint32, hold uint16, tw *ThreeWay, extra ...TLV) 
 	return BuildHello(h)
 }
 
+// NbrHelloLevel is NbrHello with a chosen circuit type (2 = level 2 only, 3 = level 1 and 2) and area.
+func NbrHelloLevel(sys SysID, ifNet uint32, hold uint16, tw *ThreeWay, circuitType uint8, area []byte) []byte {
+	h := Hello{CircuitType: circuitType, Sys: sys, Hold: hold, LocalCircuit: 1}
+	if tw != nil {
+		h.TLVs = append(h.TLVs, tw.TLV())
+	}
+	h.TLVs = append(h.TLVs, ProtocolsTLV(0xcc, 0x8e), IPIfAddrTLV(ifNet|1), AreaTLV(area))
+	return BuildHello(h)
+}
+
 func bstr(b bool) string {
 	if b {
 		return "true"
